@@ -17,7 +17,20 @@ for sid in sorted(os.listdir(os.path.join(ROOT, 'seeded'))):
     rows.append('| %s | %s | %s | %s |' % (sid, cut(m.get('summary'), 230), cut(m.get('needs_to_manifest'), 160),
                                          (', '.join(d) if d else '**not detected**') + ((' - ' + cut(note, 200)) if note else '')))
 table = '\n'.join(rows) + '\n\n%d of %d seeded changes are detected by the quick tier of at least one registered check.' % (det, n)
-ab = open(os.path.join(ROOT, 'tools', 'design_asbuilt.md')).read().replace('@SEEDED_TABLE@', table)
+kf = [json.loads(l) for l in open(os.path.join(ROOT, 'known_findings.jsonl')) if l.strip() and not l.startswith('#')]
+def cell(t, k=260):
+    t = re.sub(r'\s+', ' ', str(t or '')).replace('|', '/')
+    return t if len(t) <= k else t[:k - 3] + '...'
+fixed = [e for e in kf if e['status'] == 'fixed']
+ftab = ['| Commit | Property | Defect (failing input / history) |', '|---|---|---|'] + ['| %s | %s | %s |' % (e['commit'], e['property'], cell(e['what'], 330)) for e in fixed]
+ftable = '\n'.join(ftab) + '\n\n%d defects repaired (%d fix commits).' % (len(fixed), len({e['commit'] for e in fixed}))
+known = [e for e in kf if e['status'] == 'known']
+klist = []
+for prop in sorted({e['property'] for e in known}):
+    es = [e for e in known if e['property'] == prop]
+    klist.append('* **%s (%d)**' % (prop, len(es)))
+    klist += ['  * ' + cell(e['what'], 300) for e in es]
+ab = open(os.path.join(ROOT, 'tools', 'design_asbuilt.md')).read().replace('@SEEDED_TABLE@', table).replace('@FIXED_TABLE@', ftable).replace('@KNOWN_LIST@', '\n'.join(klist))
 p = os.path.join(ROOT, 'DESIGN.md')
 s = open(p).read()
 a = s.index('## 11. As built')
